@@ -1252,7 +1252,7 @@ class Engine:
             from . import heap as H
             H.external_call(self, 'call of ' + nm)
         for name, e in c.ensures.items():
-            if any(k_ in e for k_ in ('n_events(', 'event_arg(', 'event_ref(', 'n_calls(', 'n_added(', 'events(')):
+            if any(k_ in e for k_ in ('n_events(', 'event_arg(', 'event_ref(', 'n_calls(', 'n_added(', 'events(', 'added_index(')):
                 continue          # clauses about the callee's own activation trace say nothing in the caller's trace
             self.assume(self.pure_bool(e, fr_c))
         self.B.effects_of_call(self, c, fr_c)
